@@ -330,9 +330,9 @@ Lemma tl_copy tail total_len h1 h2 junk :
 Proof.
   intros Hlen Hlt.
   assert (Hr16 : total_len mod 16 < 16) by (apply N.mod_lt; discriminate).
-  remember (firstn 16 (junk ++ repeat 0 16)) as J eqn:HJ.
+  remember (map (wrap 8) (firstn 16 (junk ++ repeat 0 16))) as J eqn:HJ.
   assert (HlJ : length J = 16%nat).
-  { subst J. rewrite firstn_length, app_length, repeat_length. lia. }
+  { subst J. rewrite map_length, firstn_length, app_length, repeat_length. lia. }
   unfold c_murmur3_tail_init. rewrite <- HJ. clear HJ junk.
   explode J HlJ. clear HlJ.
   unfold tl_mid.
